@@ -102,6 +102,7 @@ func epochMain(path string) {
 		e = c07.NewExec("C10", "file-restart", in.Desc, st, in.Cap, 0, in.Boxes)
 		e.Open = open
 		e.ScanCfg = sc
+		e.QuietReopen = true
 		e.Import(in.State)
 		if !in.First {
 			e.Counts["process_restarts"]++
@@ -111,7 +112,10 @@ func epochMain(path string) {
 			e.Counts["messages_across_restart"] += int64(e.M.Count())
 			e.NoteReopen("restart")
 			e.Trace = append(e.Trace, "-- new process --")
-			if e.VerifyAll("after-restart", "", true) {
+			if len(in.Ops) > 0 && (len(in.Ops)+len(in.Boxes))%3 == 0 {
+				// a third of the restarted processes go straight on with the history
+				e.Counts["restarts_without_immediate_read"]++
+			} else if e.VerifyAll("after-restart", "", true) {
 				e.Visit(0, true)
 			}
 		}
